@@ -516,7 +516,31 @@ fn execute(seed: u64, tier: Tier) -> (crate::kernel::run::RunOutcome<Out>, Vec<&
                     o.issues.push(("solution-registry".into(), "a solution carries a tour without jobs".to_string()));
                 }
             });
-            drop(solution);
+            // ---- solution -> context: a solution which also lists a tour without jobs whose actor is acquired (what reading an
+            // initial solution with a departure-arrival tour produces) is turned into an individual: the vehicle
+            // bookkeeping of the individual matches its tours, the tour without jobs is gone and its vehicle on offer again
+            let mut solution = solution;
+            let spare = offered.iter().next().copied();
+            if let Some(fi) = spare {
+                let actor = actors[fi].clone();
+                solution.registry.use_actor(&actor);
+                solution.routes.push(vrp_core::models::solution::Route { actor: actor.clone(), tour: Tour::new(&actor) });
+            }
+            let back = InsertionContext::new_from_solution(problem.clone(), (solution, None), Arc::new(Environment::default()));
+            let offered_back: BTreeSet<usize> = back.solution.registry.resources().available().filter_map(|a| id_of.get(&(Arc::as_ptr(&a) as usize)).copied()).collect();
+            let tours_back: BTreeSet<usize> = back.solution.routes.iter().filter_map(|rc| id_of.get(&(Arc::as_ptr(&rc.route().actor) as usize)).copied()).collect();
+            sys::monitor(|| {
+                o.conversions += 1;
+                o.steps += 1;
+                let want: BTreeSet<usize> = (0..actors.len()).filter(|i| !tours_back.contains(i)).collect();
+                if offered_back != want {
+                    o.issues.push(("context-registry".into(), format!("an individual made from a solution (tour without jobs listed for actor {:?}) has tours of actors {:?} but offers actors {:?}, expected {:?}", spare, tours_back, offered_back, want)));
+                }
+                if back.solution.routes.iter().any(|rc| !rc.route().tour.has_jobs()) {
+                    o.issues.push(("context-registry".into(), "an individual made from a solution keeps a tour without jobs".to_string()));
+                }
+            });
+            drop(back);
         }
         o
     });
